@@ -131,13 +131,38 @@ func (m *MW) StepForge(forceMut, forceVia int) {
 		pj["C"] = hY(p.Secret)
 		desc = "C = Y"
 	}
+	var second *HProof
+	if m.T.Chance("forge.second", 1, 3) {
+		for _, x := range m.User.Purse[mint] {
+			if x != p {
+				second = x
+				break
+			}
+		}
+	}
 	m.rc.Op("forge:" + desc)
 	m.rc.S.Probe(fmt.Sprintf("c04_mut_%02d", mk))
 	var r *Resp
 	m.rc.S.BeginEpisode()
 	m.rc.S.Run1(m.name("forge"), m.W.Ext, func() {
 		amt, _ := pj["amount"].(uint64)
-		if via == 0 {
+		if via == 0 && second != nil {
+			// the mutated proof sits behind a genuine first input
+			fee := m.feeFor(mint, []*HProof{second, p})
+			tot := second.Amount + amt
+			outAmt := uint64(1)
+			if tot > fee+1 {
+				outAmt = tot - fee
+			}
+			outs := m.W.NewOutputs(Split(outAmt), ks.ID)
+			r = m.Atk.Post(mint, "/v1/swap", map[string]any{"inputs": []any{second.J(), pj}, "outputs": outsJ(outs)})
+			if r.OK() {
+				sigs, _ := r.Body["signatures"].([]any)
+				m.Atk.Purse[mint] = append(m.Atk.Purse[mint], m.W.Unblind(mint, outs, sigs)...)
+				m.markSpent(mint, []*HProof{second})
+			}
+			m.rc.S.Probe("c04_forge_second_position")
+		} else if via == 0 {
 			// swap for one sat less than claimed so that fees never matter
 			fee := m.feeFor(mint, []*HProof{p})
 			outAmt := uint64(1)
